@@ -117,8 +117,8 @@ func owned(sc *Scenario, f *simrt.Failure) bool {
 		if f.Kind == o {
 			return true
 		}
-		if f.Kind == "oracle" && len(f.Check) >= len(o) && f.Check[:len(o)] == o {
-			return true
+		if len(f.Check) >= len(o) && f.Check[:len(o)] == o && (f.Kind == "oracle" || len(o) > 5) {
+			return true // oracle check-id prefix, or a specific id such as "race:Group."
 		}
 	}
 	return false
